@@ -56,6 +56,18 @@ def _decorate(rng, op, nchunks_est, tid=None):
 
 
 def generate(rng, index, tier):
+    if index % 3001 == 41:
+        n = worlds.dict_size(rng, 70000) or 5000
+        filler = worlds.op_single(rng, 'MACH_MKRUNNABLE')
+        s_, e_ = domains.draw(rng, 'BSC_open')
+        if (index // 3001) % 2 == 0:
+            # a call that stays open for a named count of unrelated records of its thread, then looks its path up and returns
+            op = {'k': 'sys', 'name': 'BSC_open', 's': s_, 'e': e_, 'in': [dict(filler) for _ in range(n)] + [worlds.op_lookup(rng, 70), worlds.op_lookup(rng, 10)]}
+            return {'threads': [{'tid': 200, 'ops': [op]}], 'schedule': [], 'long': n}
+        # or: that many OTHER threads start something between the chunks of this thread's lookup
+        op = {'k': 'sys', 'name': 'BSC_open', 's': s_, 'e': e_, 'in': [worlds.op_lookup(rng, 100)]}
+        crowd = [{'tid': 1000 + i, 'ops': [{'k': 'raw', 'id': 0x40c0010, 'q': 1, 'a': [i, 0, 0, 0]}]} for i in range(n)]
+        return {'threads': [{'tid': 200, 'ops': [op]}] + crowd, 'schedule': [0, 0] + [1] * n + [0] * 4, 'long': n}
     cat = worlds.catalog()
     nthreads = rng.pick([1, 2, 2, 3])
     threads = []
